@@ -58,6 +58,43 @@ def still_fails(sig):
     return f
 
 
+K8_VALUES = [r"C:\\New folder", r"\\Network\\Name", r"a\\\\\\Nb", r"x\\N"]
+
+
+def k8_probe(res):
+    """The generators leave out one spelling (a literal backslash followed by a capital N) because of known
+    finding K8; this probe sends exactly that spelling, through both front ends, and accepts only the recorded
+    behaviour (or the correct one)."""
+    from .. import findings, icalref
+    from ..world import World
+
+    w = World()
+    try:
+        w.request("wsgi", "MKCALENDAR", "/user/calendars/k8")
+        for i, val in enumerate(K8_VALUES):
+            for fe in ("wsgi", "aio"):
+                raw = ("BEGIN:VCALENDAR\r\nVERSION:2.0\r\nPRODID:-//xv//k8//EN\r\nBEGIN:VEVENT\r\nUID:k8-%d-%s\r\nDTSTAMP:20200101T000000Z\r\nSUMMARY:%s\r\nEND:VEVENT\r\nEND:VCALENDAR\r\n" % (i, fe, val)).encode()
+                path = "/user/calendars/k8/k8-%d-%s.ics" % (i, fe)
+                r = w.request(fe, "PUT", path, [("Content-Type", "text/calendar")], raw)
+                res.evaluations += 1
+                if r.status not in (201, 204):
+                    res.add_violation("k8-probe/refused", f"PUT of SUMMARY:{val} answered {r.status} {r.exc or r.body[:200]!r}", {"engine": "k8", "value": val, "fe": fe})
+                    continue
+                g = w.request(fe, "GET", path)
+                try:
+                    same = icalref.parse_one(g.body, "VCALENDAR").canon() == icalref.parse_one(raw, "VCALENDAR").canon()
+                except icalref.ParseError:
+                    same = False
+                if same:
+                    continue
+                if findings.k8_backslash_capital_n(raw, g.body):
+                    res.known["K8"] += 1
+                else:
+                    res.add_violation("k8-probe/other-difference", f"PUT of SUMMARY:{val} via {fe} is served as {[ln for ln in g.body.splitlines() if ln.startswith(b'SUMMARY')]}", {"engine": "k8", "value": val, "fe": fe})
+    finally:
+        w.close()
+
+
 def main(tier, seed):
     res = runner.CheckResult(ID, tier, seed)
     res.rule = RULE
@@ -72,6 +109,7 @@ def main(tier, seed):
     from . import c01_store
 
     c01_store.run(res, tier, seed)
+    k8_probe(res)
     st = res.extra.get("stats", {})
     if st.get("ack:PUT", 0) == 0:
         res.errors.append("vacuity guard: no PUT was ever acknowledged")
@@ -86,6 +124,10 @@ def main(tier, seed):
 
 
 def replay(obj):
+    if obj.get("engine") == "k8":
+        sub = runner.CheckResult(ID, "quick", 0)
+        k8_probe(sub)
+        return not sub.violations, (sub.violations[0]["detail"] if sub.violations else None)
     if obj.get("engine") == "store":
         from ..storemachine import run_store_program
 
